@@ -170,7 +170,7 @@ def bvn_cdf(x, y, mu_x=0.0, mu_y=0.0, sigma_xx=1.0, sigma_yy=1.0, sigma_xy=0.0):
             rhk16 = (12.0 - hk) / 16.0
             asr = -1.0 * (np.divide(xmy2, opmr) + hk) / 2.0
 
-            ind = asr > 100
+            ind = asr > -100
             bvn[ind] = sopmr * np.multiply(np.exp(asr[ind]),
                                            1.0 - np.multiply(np.multiply(rhk8[ind], xmy2[ind] - opmr),
                                                              (1.0 - np.multiply(rhk16[ind], xmy2[ind]) / 5.0) / 3.0)
